@@ -76,6 +76,10 @@ def _event(args):
     text, used, struct = gen.gen_formula(rng, groups=opts.get("groups", True), max_terms=opts.get("max_terms", 4), resp=resp, hier=opts.get("hier", 0.85))
     policy = rng.choice(opts.get("policies", ["drop"]))
     ev, dm = gen.record_build(idx, text, used, w, policy)
+    if opts.get("newdata") and ev["status"] == "ok":
+        # the design evaluated on new data (all training rows, reordered / repeated): same labels, same meaning
+        ev, err = gen.record_newdata(idx, text, used, w, dm, rng)
+        return ev, text, (str(err)[:200] if ev["status"] != "ok" else "")
     return ev, text, (str(dm)[:200] if ev["status"] != "ok" else "")
 
 
